@@ -40,7 +40,7 @@ pub fn shape(bs: usize, l: usize) -> &'static str {
 }
 
 pub fn run(ctx: &Ctx) -> Outcome {
-    let cfgs = ctx.cfgs();
+    let cfgs = ctx.cfgs_with_sweep();
     let units: Vec<(&Cfg, &CtsDesc)> = cfgs.iter().flat_map(|c| c.cts.iter().map(move |d| (*c, d))).collect();
     let tier = ctx.tier;
     let seed = ctx.seed;
@@ -48,18 +48,19 @@ pub fn run(ctx: &Ctx) -> Outcome {
         let mut rep = Report::new(format!("{}/{}", cfg.name, d.name));
         let bs = cfg.bs;
         let par = par_of(cfg);
-        let lens = cts_lengths(bs, par, tier);
+        let sweep = cfg.sets.contains('s');
+        let lens = if sweep { let mut v: Vec<usize> = (bs..=2 * bs + 1).collect(); v.extend([3 * bs - 1, 3 * bs, 3 * bs + 1, 5 * bs, 7 * bs + bs / 2]); v.sort(); v.dedup(); if bs > 32 { v.retain(|l| { let r = l % bs; r <= 1 || r >= bs - 1 || r == bs / 2 }); } v } else { cts_lengths(bs, par, tier) };
         let lmax = *lens.last().unwrap();
         let keys = keys(seed, cfg.key_len);
-        let nkeys = tier.pick(1, 2);
+        let nkeys = if sweep { 1 } else { tier.pick(1, 2) };
         for key in keys.iter().take(nkeys) {
             let c = rf::Ciph::new(cfg, key);
-            for (ivn, iv) in iv_variants(seed, bs) {
+            for (ivn, iv) in iv_variants(seed, bs).into_iter().skip(if sweep && d.cbc { 2 } else { 0 }) {
                 let ivo: Option<&[u8]> = if d.cbc { Some(&iv) } else { None };
                 if !d.cbc && ivn != "zero" {
                     continue; // ECB variants take no IV
                 }
-                for (dn, data) in data_variants(seed, 0xC05, lmax).into_iter().skip(light(cfg, tier)) {
+                for (dn, data) in data_variants(seed, 0xC05, lmax).into_iter().skip(if sweep { 2 } else { light(cfg, tier) }) {
                     for &l in &lens {
                         let m = &data[..l];
                         let want_enc = rf::cts_enc(&c, ivo, d.variant, m);
@@ -105,7 +106,7 @@ pub fn run(ctx: &Ctx) -> Outcome {
     let mut o = merge(reports);
     o.rule = "stateless exhaustive: every (CTS type, configuration, key, IV, data pattern, length in the length set, call form) x {enc vs reference, dec of reference ciphertext, dec of arbitrary bytes vs reference}; a state is one complete history".into();
     o.configs = cfgs.iter().map(|c| c.name.clone()).collect();
-    o.bounds = vec![
+    o.bounds = vec![("all_sizes_sweep".into(), J::Str(if tier == Tier::Thorough && cfgs.iter().any(|c| c.sets.contains('s')) { "every block size 1..=255 (parallel width 2) with reduced length bounds".into() } else { "not in this tier".to_string() })), 
         ("max_blocks".into(), J::Str(tier.pick("2*PAR+2", "2*PAR+3").into())),
         ("lengths".into(), J::Str("all residues for block counts {1,2,3,PAR,PAR+1,PAR+2,2PAR+1,max} (all block counts when bs<=8); residues {0,1,bs/2,bs-1} otherwise".into())),
         ("keys".into(), J::Int(tier.pick(1, 2))),
